@@ -1608,3 +1608,85 @@ Proof.
   intros E. pose proof (w_block_connected_presW _ (users_stableW (gk_users t) (db_users t)) sc t b h (conj eq_refl eq_refl)) as H.
   rewrite E in H. exact H.
 Qed.
+
+(* ------------------------------------------------------------------------------------------ *)
+(* the whole Connect step *)
+
+Lemma keys_index_block hash txs : keys_of (ib_data (index_block hash txs)) = txs.
+Proof.
+  unfold index_block, keys_of. cbn [ib_data]. rewrite map_map. cbn [fst]. apply map_id.
+Qed.
+
+Lemma step_connect_inv le t hash txs sc t' :
+  step le t (OConnect hash txs) sc = (t', OBlockRes) ->
+  exists tg tw,
+    gk_block_connected (set_rpc_log t []) (gk_height t + 1) = Ok tt tg /\
+    w_block_connected sc tg (cache_block hash txs) (gk_height t + 1) = Ok tt tw /\
+    r_block_connected le sc tw (index_block hash txs) (gk_height t + 1) = Ok tt t'.
+Proof.
+  cbn [step]. change Consts.LISTENER_ORDER with [0%Z; 1%Z; 2%Z]. cbn [run_listeners].
+  change (gk_height (set_rpc_log t [])) with (gk_height t).
+  unfold listener_connected. cbn [Z.eqb Pos.eqb].
+  destruct (gk_block_connected (set_rpc_log t []) (gk_height t + 1)) as [[] tg|s tg] eqn:Eg; cbn [bind wrap]; [|intros E; inversion E].
+  destruct (w_block_connected sc tg (cache_block hash txs) (gk_height t + 1)) as [[] tw|s tw] eqn:Ew; cbn [bind wrap]; [|intros E; inversion E].
+  destruct (r_block_connected le sc tw (index_block hash txs) (gk_height t + 1)) as [[] t6|s t6] eqn:Er; cbn [bind wrap]; [|intros E; inversion E].
+  intros E. inversion E. subst. exists tg, tw. auto.
+Qed.
+
+Lemma gk_block_connected_users t h tg :
+  gk_block_connected t h = Ok tt tg ->
+  exists outdated, outdated_users (c_delta (cfg t)) h (gk_users t) = Some outdated /\
+    gk_height tg = h /\
+    (forall u, aget (gk_users tg) u = if memN u outdated then None else aget (gk_users t) u) /\
+    (forall u, aget (db_users tg) u = if memN u outdated then None else aget (db_users t) u).
+Proof.
+  unfold gk_block_connected. destruct (outdated_users (c_delta (cfg t)) h (gk_users t)) as [out|]; [|discriminate].
+  intros E. inversion E. clear E. exists out. split; [reflexivity|]. split; [reflexivity|]. destruct out as [|o out].
+  - split; intros u; reflexivity.
+  - split; intros u; unfold p_purge, db_delete_users;
+      cbn [gk_users db_users set_gk_height set_db_trks set_db_apps set_db_users set_gk_users].
+    + rewrite aget_retain. destruct (memN u (o :: out)); reflexivity.
+    + rewrite (aget_filter_key (fun k => negb (memN k (o :: out)))). destruct (memN u (o :: out)); reflexivity.
+Qed.
+
+Theorem step_connect_refunds le t hash txs sc t' :
+  Inv t -> step le t (OConnect hash txs) sc = (t', OBlockRes) ->
+  exists outdated tw,
+    outdated_users (c_delta (cfg t)) (gk_height t + 1) (gk_users t) = Some outdated /\
+    Inv tw /\ gk_height tw = gk_height t + 1 /\
+    r_block_connected le sc tw (index_block hash txs) (gk_height t + 1) = Ok tt t' /\
+    (forall u, aget (gk_users t') u =
+               if memN u outdated then None
+               else option_map (credit (refund_total (db_apps tw) (completed_list txs (gk_height t + 1) tw) u))
+                               (aget (gk_users t) u)) /\
+    (forall u, aget (db_users t') u =
+               if memN u outdated then None
+               else option_map (credit (refund_total (db_apps tw) (completed_list txs (gk_height t + 1) tw) u))
+                               (aget (db_users t) u)).
+Proof.
+  intros HI E. destruct (step_connect_inv le t hash txs sc t' E) as [tg [tw [Eg [Ew Er]]]].
+  assert (HIf : Inv (set_rpc_log t [])) by (eapply inv_frame; [|exact HI]; repeat split).
+  assert (HIg : Inv tg).
+  { pose proof (gk_block_connected_pres Inv (sa_block _ inv_stable) _ (gk_height t + 1) HIf) as Hp. rewrite Eg in Hp. exact Hp. }
+  assert (HIw : Inv tw).
+  { pose proof (w_block_connected_pres Inv (sb_wr _ (sa_block _ inv_stable)) sc tg (cache_block hash txs) (gk_height t + 1) HIg) as Hp.
+    rewrite Ew in Hp. exact Hp. }
+  destruct (gk_block_connected_users _ _ _ Eg) as [out [Eo [Hh [Hgu Hdu]]]].
+  destruct (w_block_connected_users sc tg (cache_block hash txs) (gk_height t + 1) tw Ew) as [Hwg Hwd].
+  destruct (completes_iff_100 le sc tw (index_block hash txs) (gk_height t + 1) t' HIw Er) as [_ [_ [Hg Hd]]].
+  rewrite keys_index_block in Hg, Hd.
+  assert (Hwh : gk_height tw = gk_height tg).
+  { pose proof (w_block_connected_presW (fun x => gk_height x = gk_height tg)) as Hp.
+    assert (HS : StableW (fun x => gk_height x = gk_height tg)).
+    { constructor.
+      - intros a b [_ [_ [Hx _]]] Ha. congruence.
+      - intros sc0 a x Ha. destruct (send_spec sc0 a x) as [m [l [Es _]]]. rewrite Es. exact Ha.
+      - intros a us Ha. exact Ha.
+      - intros a k Ha _ _ _. exact Ha. }
+    specialize (Hp HS sc tg (cache_block hash txs) (gk_height t + 1) eq_refl). rewrite Ew in Hp. exact Hp. }
+  exists out, tw. split; [exact Eo|]. split; [exact HIw|]. split; [congruence|]. split; [exact Er|]. split.
+  - intros u. rewrite Hg, Hwg, Hgu. change (gk_users (set_rpc_log t [])) with (gk_users t).
+    destruct (memN u out); reflexivity.
+  - intros u. rewrite Hd, Hwd, Hdu. change (db_users (set_rpc_log t [])) with (db_users t).
+    destruct (memN u out); reflexivity.
+Qed.
